@@ -159,6 +159,46 @@ fn compare_with_references(rep: &mut Rep, refs: &[(String, NormalizedString)], c
     rep.count("comparisons_with_first_built_values", refs.len() as u64);
 }
 
+/// Equality, ordering, hashing and in-place overwriting of one pair of valid strings.
+fn judge_pair(rep: &mut Rep, a: &str, b: &str, do_clone_from: bool, sample: bool) {
+    rep.ev(1);
+    let (na, nb) = match (guard(|| NormalizedString::new(a)), guard(|| NormalizedString::new(b))) {
+        (Ok(Ok(x)), Ok(Ok(y))) => (x, y),
+        _ => {
+            rep.violation("c13:valid_rejected:random_pair", format!("a valid printable string was rejected: {:?} / {:?}", a, b), format!("str {}", hex(a.as_bytes())));
+            return;
+        }
+    };
+    let (ta, tb) = (a.to_ascii_uppercase(), b.to_ascii_uppercase());
+    if (na == nb) != (ta == tb) {
+        rep.violation("c13:eq_disagrees", format!("{:?} == {:?} is {} but normalised texts equal is {}", a, b, na == nb, ta == tb), format!("pair {} {}", hex(a.as_bytes()), hex(b.as_bytes())));
+    }
+    if na.cmp(&nb) != ta.as_str().cmp(tb.as_str()) || na.partial_cmp(&nb) != Some(ta.as_str().cmp(tb.as_str())) {
+        rep.violation("c13:ord_disagrees", format!("cmp({:?}, {:?}) = {:?}, normalised text order is {:?}", a, b, na.cmp(&nb), ta.as_str().cmp(tb.as_str())), format!("pair {} {}", hex(a.as_bytes()), hex(b.as_bytes())));
+    }
+    if ta == tb && hash_of(&na) != hash_of(&nb) {
+        rep.violation("c13:hash_disagrees", format!("equal normalised texts hash differently: {:?} {:?}", a, b), format!("pair {} {}", hex(a.as_bytes()), hex(b.as_bytes())));
+    }
+    // a value overwritten in place (clone_from, as Vec::clone_from / Option::clone_from do) is the value it was copied from
+    if do_clone_from {
+        let mut d = nb.clone();
+        d.clone_from(&na);
+        rep.ev(1);
+        rep.count("values_overwritten_by_clone_from", 1);
+        if d != na || na != d || d.cmp(&na) != std::cmp::Ordering::Equal || hash_of(&d) != hash_of(&na) || d.as_ref() != na.as_ref() || d.to_string() != na.to_string() {
+            rep.violation(
+                "c13:clone_from_differs",
+                format!("a value holding {:?} overwritten by clone_from with {:?}: eq={} cmp={:?} same_hash={} text={:?}", b, a, d == na, d.cmp(&na), hash_of(&d) == hash_of(&na), d.as_ref()),
+                format!("pair {} {}", hex(a.as_bytes()), hex(b.as_bytes())),
+            );
+        }
+    }
+    if sample {
+        rep.sample(format!("{:?} vs {:?}: eq={} cmp={:?}", a, b, na == nb, na.cmp(&nb)));
+    }
+    rep.cell(&[a.len() as u64, b.len() as u64, (ta == tb) as u64]);
+}
+
 pub fn run(tier: &str, seed: u64) -> Rep {
     let mut total = Rep::new();
     let refs: Vec<(String, NormalizedString)> = std::thread::spawn(|| {
@@ -370,34 +410,26 @@ distinct = distinct input strings (each is one input of the quantifier)"
             (0..n).map(|_| (0x20 + rng.below(95) as u8) as char).collect()
         };
         let a = mk(&mut rng);
-        let b = if rng.chance(1, 3) {
+        let b = match rng.below(6) {
             // case variant of a
-            a.chars().map(|c| if rng.chance(1, 2) { c.to_ascii_lowercase() } else { c.to_ascii_uppercase() }).collect()
-        } else {
-            mk(&mut rng)
-        };
-        rep.ev(1);
-        let (na, nb) = match (guard(|| NormalizedString::new(&a)), guard(|| NormalizedString::new(&b))) {
-            (Ok(Ok(x)), Ok(Ok(y))) => (x, y),
-            _ => {
-                rep.violation("c13:valid_rejected:random_pair", format!("a valid printable string was rejected: {:?} / {:?}", a, b), format!("str {}", hex(a.as_bytes())));
-                continue;
+            0 | 1 => a.chars().map(|c| if rng.chance(1, 2) { c.to_ascii_lowercase() } else { c.to_ascii_uppercase() }).collect(),
+            // a shared prefix of any length followed by another tail: the order is decided by the first difference wherever
+            // it lies, and several later positions differ too (in either sense)
+            2 | 3 => {
+                let keep = rng.below(a.len() as u64 + 1) as usize;
+                let mut t: String = a[..keep].to_string();
+                let extra = rng.below((16 - keep) as u64 + 1) as usize;
+                for _ in 0..extra {
+                    t.push((0x20 + rng.below(95) as u8) as char);
+                }
+                if t.is_empty() {
+                    t.push('x');
+                }
+                t
             }
+            _ => mk(&mut rng),
         };
-        let (ta, tb) = (a.to_ascii_uppercase(), b.to_ascii_uppercase());
-        if (na == nb) != (ta == tb) {
-            rep.violation("c13:eq_disagrees", format!("{:?} == {:?} is {} but normalised texts equal is {}", a, b, na == nb, ta == tb), format!("pair {} {}", hex(a.as_bytes()), hex(b.as_bytes())));
-        }
-        if na.cmp(&nb) != ta.as_str().cmp(tb.as_str()) || na.partial_cmp(&nb) != Some(ta.as_str().cmp(tb.as_str())) {
-            rep.violation("c13:ord_disagrees", format!("cmp({:?}, {:?}) = {:?}, normalised text order is {:?}", a, b, na.cmp(&nb), ta.as_str().cmp(tb.as_str())), format!("pair {} {}", hex(a.as_bytes()), hex(b.as_bytes())));
-        }
-        if ta == tb && hash_of(&na) != hash_of(&nb) {
-            rep.violation("c13:hash_disagrees", format!("equal normalised texts hash differently: {:?} {:?}", a, b), format!("pair {} {}", hex(a.as_bytes()), hex(b.as_bytes())));
-        }
-        if i < 3 {
-            rep.sample(format!("{:?} vs {:?}: eq={} cmp={:?}", a, b, na == nb, na.cmp(&nb)));
-        }
-        rep.cell(&[a.len() as u64, b.len() as u64, (ta == tb) as u64]);
+        judge_pair(&mut rep, &a, &b, i % 4 == 0, i < 3);
     }
     compare_with_references(&mut rep, refs_ref, "main_thread_end");
     rep.sample(format!("new({:?}) -> {:?}", "aB3 \u{e9}", conv(NormalizedString::new("aB3 \u{e9}")).0));
@@ -415,6 +447,9 @@ pub fn replay(args: &[String]) -> Rep {
         if let (Ok(a), Ok(b)) = (String::from_utf8(unhex(&args[1])), String::from_utf8(unhex(&args[2]))) {
             judge(&mut rep, &a, "replay", true);
             judge(&mut rep, &b, "replay", true);
+            if NormalizedString::new(&a).is_ok() && NormalizedString::new(&b).is_ok() {
+                judge_pair(&mut rep, &a, &b, true, true);
+            }
         }
     }
     rep
